@@ -8,6 +8,7 @@ signal, bounded CPU and output, return value <= buffer size, no output byte that
 is not derivable from the inputs (a canary in the environment must never show).
 """
 import os
+import re
 import sys
 from collections import Counter
 
@@ -217,8 +218,46 @@ def tool_task(task):
     return sh
 
 
+_VG = re.compile(rb"==\d+== (Conditional jump or move depends on uninitialised value|Use of uninitialised value|"
+                 rb"Invalid (?:read|write|free)[^\n]*|Syscall param [^\n]*uninitialised[^\n]*|Mismatched free[^\n]*|"
+                 rb"Source and destination overlap[^\n]*|Argument '[^\n]*fishy[^\n]*|Process terminating[^\n]*)"
+                 rb"[^\n]*\n(?:==\d+==\s+(?:at|by) 0x[0-9A-F]+: (\S+)[^\n]*\n)?(?:==\d+==\s+(?:at|by) 0x[0-9A-F]+: (\S+))?")
+
+
+def memcheck_task(task):
+    """the same hostile tool invocations on the uninstrumented build under valgrind memcheck: uninitialised-value use and
+    invalid accesses ASan's red zones cannot see (reads of stale stack/heap contents)"""
+    plaindir, seed, n = task
+    import random
+    rng = random.Random(seed)
+    sh = Shard()
+    for argv, stdin, cls in tool_cases(rng, plaindir, n):
+        argv = [(a if isinstance(a, bytes) else a.encode("utf-8", "surrogateescape")).replace(b"\0", b"\x01") for a in argv]
+        vg = [b"valgrind", b"-q", b"--error-exitcode=97", b"--track-origins=no", b"--leak-check=no", b"--num-callers=8"]
+        r = run(vg + argv, stdin=stdin, cpu=120, wall=600, max_out=4 << 20, env={"VERIF_CANARY_ENV": CANARY})
+        sh.procs += 1
+        if r.timed_out or r.cpu_exceeded:
+            sh.extra["inconclusive_memcheck_timeouts"] += 1
+            continue
+        m = _VG.search(r.err or b"")
+        if m is None and r.rc != 97:
+            sh.ok("memcheck", ("memcheck", cls, "clean"))
+            continue
+        if m is None:
+            kind, fn = "error", "?"
+        else:
+            kind = m.group(1).decode("latin-1").split(" of size")[0].replace(" ", "-")[:48]
+            fns = [g.decode("latin-1") for g in (m.group(2), m.group(3)) if g]
+            # skip libc frames (strlen & co. are reported inside the replacement functions)
+            fn = next((f for f in fns if not f.startswith(("__", "str", "mem", "_IO", "vfprintf", "printf", "fwrite", "puts"))), fns[0] if fns else "?")
+        sh.bad("memcheck", "memcheck:%s:%s@%s" % (cls, kind, fn), "valgrind memcheck: %s in %s: %s" % (kind, fn, core.shq(argv)[:300]),
+               dict(argv=[a.decode("latin-1") for a in vg + argv], stdin=stdin.decode("latin-1"), variant="plain", stderr=(r.err or b"")[:3000].decode("latin-1")),
+               cls=("memcheck", cls, kind))
+    return sh
+
+
 def _dispatch(t):
-    return drv_task(t[1]) if t[0] == "drv" else tool_task(t[1])
+    return drv_task(t[1]) if t[0] == "drv" else tool_task(t[1]) if t[0] == "tool" else memcheck_task(t[1])
 
 
 def main(tier, seed):
@@ -231,6 +270,10 @@ def main(tier, seed):
         tasks.append(("drv", (bindir, seed * 1000003 + i, 4000 if quick else 12000)))
     for i in range(scale):
         tasks.append(("tool", (bindir, seed * 1000003 + 5000 + i, 90 if quick else 300)))
+    if scale >= 64:
+        plaindir = ctx.bin("plain")
+        for i in range(16 if quick else 160):
+            tasks.append(("vg", (plaindir, seed * 1000003 + 9000 + i, 25 if quick else 60)))
     for sh in core.pmap(_dispatch, tasks):
         ctx.merge(sh)
     ctx.rule = ("events = one library call through dutdrv (dt_strpdt, dt_strfdt with output buffers of every size class "
@@ -240,7 +283,9 @@ def main(tier, seed):
                 "255/256/257-byte formats, random bytes, high-bit first byte, special names off by one; texts truncated, "
                 "overlong digit runs, +-2^31/2^63, control bytes, out-of-range fields. Monitors: ASan/UBSan/probe "
                 "reports, death signals, CPU limit, output cap, return value <= buffer size, environment canary must "
-                "not appear in any output. distinct_nontrivial = distinct (entry point, input class, outcome)")
+                "not appear in any output; 'memcheck' = a sample of the same hostile tool invocations on the uninstrumented -O2 "
+                "build under valgrind memcheck (uninitialised-value use, invalid accesses inside live blocks' neighbourhood, "
+                "overlapping copies). distinct_nontrivial = distinct (entry point, input class, outcome)")
     ctx.assumptions = ["argv strings cannot contain NUL; NUL bytes reach the library through dutdrv only",
                        "leaks (LeakSanitizer) are not part of the property"]
     ctx.min_evals = 2000
